@@ -107,6 +107,15 @@ Theorem c17_gzip_scale_free : forall k, 0 < k -> forall rep falsy cached ae ctv 
 Proof. exact gzip_tool_scale. Qed.
 Print Assumptions c17_gzip_scale_free.
 
+(** The same for charset negotiation, for every encodability function, body and
+    configuration (code as written and repaired). *)
+Theorem c17_charset_scale_free : forall k, 0 < k ->
+  forall (T : Type) (encodable : list Z -> T -> bool) (usable : list Z -> bool) c oneshot ct ac b,
+  encode_tool T encodable usable c oneshot ct (option_map (map (scale k)) ac) b
+  = encode_tool T encodable usable c oneshot ct ac b.
+Proof. exact encode_tool_scale. Qed.
+Print Assumptions c17_charset_scale_free.
+
 (** Non-vacuity. *)
 Example c17_gzip_nonvacuous :
   (forall (level : Z) body rest,
